@@ -46,9 +46,12 @@ def best_cert(g, x0, lb, ub, G, h, cones):
         pos += 1 + 2 * m
     c[off_t:] = -1.0
     for i in range(n):
-        # t_i <= lb_i r_i ,  t_i <= ub_i r_i
+        # t_i <= lb_i r_i ,  t_i <= ub_i r_i      (ub_i = +inf: r_i >= 0 instead)
         A_ub[2 * i, :] = -lb[i] * R[i]; A_ub[2 * i, off_t + i] = 1.0; b_ub[2 * i] = lb[i] * g[i]
-        A_ub[2 * i + 1, :] = -ub[i] * R[i]; A_ub[2 * i + 1, off_t + i] = 1.0; b_ub[2 * i + 1] = ub[i] * g[i]
+        if np.isfinite(ub[i]):
+            A_ub[2 * i + 1, :] = -ub[i] * R[i]; A_ub[2 * i + 1, off_t + i] = 1.0; b_ub[2 * i + 1] = ub[i] * g[i]
+        else:
+            A_ub[2 * i + 1, :] = -R[i]; b_ub[2 * i + 1] = g[i]
     bounds = [(0, None)] * (nv_tot - n) + [(None, None)] * n
     r = linprog(c, A_ub=A_ub, b_ub=b_ub, bounds=bounds, method="highs")
     lam = np.zeros(p); ys = [np.zeros(m) for m in sizes]
@@ -60,6 +63,17 @@ def best_cert(g, x0, lb, ub, G, h, cones):
             mu = max(z[pos], 0.0)
             ys[k] = -mu * u + z[pos + 1:pos + 1 + m] - z[pos + 1 + m:pos + 1 + 2 * m]
             pos += 1 + 2 * m
+    # unbounded coordinates need r_i >= 0 EXACTLY in the checker: push them to a small positive margin by
+    # raising the multiplier of a row with a positive coefficient there (costs nothing when lb_i = 0)
+    inf_idx = [i for i in range(n) if not np.isfinite(ub[i])]
+    if inf_idx and p:
+        for _ in range(3):
+            rr = g + G.T @ lam - sum((np.asarray(M, dtype=float).T @ y for (M, e, rho), y in zip(cones, ys)), np.zeros(n))
+            for i in inf_idx:
+                if rr[i] < 1e-9:
+                    f = int(np.argmax(G[:, i]))
+                    if G[f, i] > 0:
+                        lam[f] += (1e-9 - rr[i]) / G[f, i] * 1.000001
     lam_f = [Fr(float(v)) for v in lam]
     ys_f = [[Fr(float(v)) for v in y] for y in ys]
     ss_f = [xq.sqrt_ceil(sum(a * a for a in y)) if any(y) else Fr(0) for y in ys_f]
